@@ -16,7 +16,8 @@ import (
 //   C15.lr <limit> <plen>:<k>:<err>,…   scripted wrapped reader: counter stream
 //          (byte i of the stream is i%251), at most k bytes per call (negative k
 //          returned as is), error code err (0 nil, 1 io.EOF, n≥2 injected errN)
-//   C15.tw <limit> <hex>:<err>,…        writes; err is what the wrapped writer returns
+//   C15.tw <limit> <hex>:<err>[:<k>],…  writes; err is what the wrapped writer returns, k (optional)
+//                                        the short count it reports
 
 type injErr int
 
@@ -172,17 +173,23 @@ type scriptedWriter struct {
 	called bool
 	last   []byte
 	err    error
+	// short, if >= 0, is the count the writer reports instead of len(b) (it still
+	// receives, and the oracle still counts, every byte it was handed)
+	short int
 }
 
 func (w *scriptedWriter) Write(b []byte) (int, error) {
 	w.called = true
 	w.last = append([]byte{}, b...)
 	w.got = append(w.got, b...)
+	if w.short >= 0 && w.short < len(b) {
+		return w.short, w.err
+	}
 	return len(b), w.err
 }
 
 func evalC15TW(limit int, ws string) Result {
-	sw := &scriptedWriter{}
+	sw := &scriptedWriter{short: -1}
 	tw := ioutil.NewTruncatedWriter(sw, uint(limit))
 	var outs []string
 	var all []byte
@@ -194,6 +201,10 @@ func evalC15TW(limit int, ws string) Result {
 			b := unhx(f[0])
 			code := atoi(f[1])
 			sw.err = codeToErr(code)
+			sw.short = -1
+			if len(f) > 2 {
+				sw.short = atoi(f[2])
+			}
 			sw.called = false
 			n, err := tw.Write(b)
 			all = append(all, b...)
@@ -276,7 +287,12 @@ func genC15(rng *rand.Rand, tier string) (cases []string) {
 				if rng.IntN(5) == 0 {
 					e = 1 + rng.IntN(3)
 				}
-				ws = append(ws, fmt.Sprintf("%s:%d", hx(b), e))
+				if rng.IntN(4) == 0 {
+					// the wrapped writer reports a short count (with or without an error)
+					ws = append(ws, fmt.Sprintf("%s:%d:%d", hx(b), e, rng.IntN(l+1)))
+				} else {
+					ws = append(ws, fmt.Sprintf("%s:%d", hx(b), e))
+				}
 			}
 			s := strings.Join(ws, ",")
 			if s == "" {
